@@ -12,9 +12,10 @@ LEAN_PROPS = 'PlumpyModel.Props.C15'
 ASSUMPTIONS = [
     'port names are drawn from a set in which names are string prefixes of one another (a, ab, abc, a_b, b, x)',
     'include rule sets contain no rule that is an ancestor of another rule of the same set (the property\'s side condition)',
-    'independence is probed by mutating every reachable port object on one side after the expose and re-reading the other side; '
-    'in-place mutation of a shared mutable attribute VALUE of a NAMESPACE (e.g. a dict used as its default: copy.copy and '
-    'setattr(self, attr, getattr(source, attr)) share it by reference) is not probed and not modelled (values are atoms)',
+    'independence is probed by mutating every reachable port object on one side after the expose and re-reading the other side, '
+    'including IN-PLACE changes of mutable attribute values (the dict used as the default of a leaf port or of a namespace; '
+    'finding F33: namespace defaults were shared by reference); in the full model values are atoms, so this clause is decided by '
+    'the probe alone',
     'full model: the source and the destination share no port object before the first expose (C15_full_seq_invariant proves '
     'that exposes keep it so); every namespace has distinct keys (a dict)',
     'full stream: identity is compared with `is` against the objects numbered before the first call; property values and leaf '
@@ -50,6 +51,8 @@ def gen_tree(rng, depth, top=True):
                 props['help'] = 'ns-' + nm
             if rng.random() < 0.3:
                 props['populate_defaults'] = False
+            if rng.random() < 0.3:
+                props['default'] = {'d': [nm]}        # a mutable default of a nested namespace (changed in place by the probe)
             if rng.random() < 0.3:
                 props['unit'] = 'eV'          # a PortNamespace SUBCLASS carrying extra state (class UnitNS below)
             out.append((nm, props, gen_tree(rng, depth - 1, top=False)))
@@ -308,9 +311,13 @@ def run_impl(case):
         if isinstance(port, PortNamespace):
             port['newport'] = InputPort('newport')
             port.dynamic = not port.dynamic
+            if port.has_default() and isinstance(port.default, dict):
+                port.default['probe-dst'] = 9      # in place: the default VALUE of a copied namespace is a copy too
         elif port.has_default() and isinstance(port.default, dict):
             port.default['cut'].append(9)          # in place: a shallow copy of the port would share this object
     target.help = 'mutated-top'
+    if target.has_default() and isinstance(target.default, dict) and not (opts and 'default' in opts):
+        target.default['probe-dst-top'] = 9
     if snapshot(src_ns) != src_before:
         F('c15-source-changed-by-destination', 'later changes to the destination do not show through to the source', None)
     dst_mid = snapshot(dst_ns)
@@ -319,8 +326,12 @@ def run_impl(case):
         port.required = not port.required
         if isinstance(port, PortNamespace):
             port['srcnew'] = InputPort('srcnew')
+            if port.has_default() and isinstance(port.default, dict):
+                port.default['probe-src'] = 7
         elif port.has_default() and isinstance(port.default, dict):
             port.default['cut'].append(7)
+    if src_ns.has_default() and isinstance(src_ns.default, dict):
+        src_ns.default['probe-src-top'] = 7
     if snapshot(dst_ns) != dst_mid:
         F('c15-destination-changed-by-source', 'later changes to the source do not show through to the destination', None)
     return obs, fails
